@@ -1,5 +1,5 @@
 import Driver.Proto
-import AGH.Spec.Schedule
+import AGH.Spec.ScheduleFloat
 open Driver AGH AGH.C18
 
 abbrev P := StateT (List String) Option
@@ -105,11 +105,26 @@ structure DecodeIn where
   parseOK : Bool
   tzOK : Bool
   c : Conf
+  toks : Option (Week (Option DayToks))     -- the duration tokens, when the generator knows them
+
+def pTok : P (Option Bytes) := do
+  let t ← tok
+  if t == "~" then pure none else match hexDecode t with | some b => pure (some b) | none => failure
+
+def pDayToks : P (Option DayToks) := do
+  let kind ← pBool; let a ← pTok; let b ← pTok
+  pure (if kind then some ⟨a, b⟩ else none)
 
 def pDecodeIn : P DecodeIn := do
   let _text ← pHex; let parseOK ← pBool; let tz ← pHex; let tzOK ← pBool
   let days ← pWeek pOptRange
-  pure ⟨parseOK, tzOK, ⟨tz, days⟩⟩
+  let rest ← get
+  match rest with
+  | [] => pure ⟨parseOK, tzOK, ⟨tz, days⟩, none⟩
+  | _ =>
+    let tokOK ← pBool
+    let toks ← pWeek pDayToks
+    pure ⟨parseOK, tzOK, ⟨tz, days⟩, if tokOK then some toks else none⟩
 
 /-- impl observation → `DecodeObs` -/
 def parseDecodeObs (impl : List String) : Option DecodeObs :=
@@ -120,13 +135,48 @@ def parseDecodeObs (impl : List String) : Option DecodeObs :=
       pure (DecodeObs.accepted loc days rt)) rest
   | _ => none
 
+/-- How far the decoded value is from what was written. -/
+def inexactClass (neg : Bool) (num den : Nat) (decoded : Int) : String :=
+  let ex : Int := if neg then -(num : Int) else (num : Int)
+  let diff := (decoded * (den : Int) - ex).natAbs
+  if diff < den then "sub-ns" else if diff < 2 * den then "1ns" else "coarse"
+
+/-- Reason class for an accepted document with a day the exact-value monitor refuses. -/
+def acceptedReason (val : Bytes → TokVal) (toks : Week (Option DayToks)) (days : Week DayRange) : String :=
+  let field (t : Option Bytes) (decoded : Int) : Option String :=
+    match fieldVal val t with
+    | .notNumber => some "C18.decode-accepts-non-number"
+    | .notWhole neg num den => some ("C18.decode-inexact:" ++ inexactClass neg num den decoded)
+    | _ => none
+  let day (p : Option DayToks × DayRange) : Option String :=
+    match p.1 with
+    | none => if p.2 == DayRange.zero then none else some "C18.decode-changed"
+    | some dt =>
+      match field dt.start p.2.start, field dt.stop p.2.stop with
+      | some r, _ => some r
+      | _, some r => some r
+      | none, none =>
+        match dayVal val p.1 with
+        | .range r => if p.2 != r then some "C18.decode-changed"
+                      else if mustReject r then some "C18.decode-accepts-forbidden" else none
+        | _ => none
+  ((toks.toList.zip days.toList).filterMap day).head?.getD "C18.decode-changed"
+
 def stepDecode (yaml : Bool) (ins impl : List String) : Option String := do
   let d ← runP pDecodeIn ins
   let tzOK : Bytes → Bool := fun n => (n == d.c.tz && d.tzOK) || (n == locName d.c.tz && d.tzOK)
-  let c := if yaml then yamlAbsentAsZero d.c else d.c
+  -- the configuration struct: from the tokens where they are known (the duration unmarshallers are
+  -- modelled), from the library oracle otherwise
+  let tc : TokConf := match d.toks with
+    | some toks => confOfToks (if yaml then yamlTokNs else jsonTokNs) d.c.tz toks d.c.days
+    | none => .conf d.c
   let model :=
     if !d.parseOK then tabs ["err", "parse"]
-    else match decodeConf tzOK c with
+    else match tc with
+    | .parseError => tabs ["err", "parse"]
+    | .conf c0 =>
+      let c := if yaml then yamlAbsentAsZero c0 else c0
+      match decodeConf tzOK c with
       | .error .tz => tabs ["err", "tz"]
       | .error (.day i e) => tabs ["err", "day", toString i, vErrName e]
       | .ok w =>
@@ -136,13 +186,29 @@ def stepDecode (yaml : Bool) (ins impl : List String) : Option String := do
         tabs (["ok", hexEncode w.loc] ++ showDays w.days ++
           [match bytes with | some b => hexEncode b | none => "unrenderable", showB rt])
   let obs ← parseDecodeObs impl
-  let spec := if specDecodeOK d.parseOK d.tzOK d.c obs then none else
-    some (match obs with
-      | .rejected => "C18.decode-rejects-allowed"
-      | .accepted _ days same =>
-        if !same then "C18.roundtrip-changed"
-        else if !(days.toList.all (fun r => !mustReject r)) then "C18.decode-accepts-forbidden"
-        else "C18.decode-changed")
+  let val := if yaml then yamlTokVal else jsonTokVal
+  let spec :=
+    -- exact-value monitor first (it is the stricter one)
+    match d.toks with
+    | some toks =>
+      if specDecodeTokOK val d.parseOK d.tzOK d.c.tz toks obs then none else
+        some (match obs with
+          | .rejected => "C18.decode-rejects-allowed"
+          | .accepted _ days same =>
+            if !(d.parseOK && d.tzOK) then "C18.decode-accepts-unparsable"
+            else if !(Week.zipAll (dayAcceptedOK val) toks days) then acceptedReason val toks days
+            else if !same then "C18.roundtrip-changed" else "C18.decode-changed")
+    | none => none
+  let spec := match spec with
+    | some r => some r
+    | none =>
+      if specDecodeOK d.parseOK d.tzOK d.c obs then none else
+      some (match obs with
+        | .rejected => "C18.decode-rejects-allowed"
+        | .accepted _ days same =>
+          if !same then "C18.roundtrip-changed"
+          else if !(days.toList.all (fun r => !mustReject r)) then "C18.decode-accepts-forbidden"
+          else "C18.decode-changed")
   pure (verdict (model == tabs impl) spec model)
 
 /-! token level -/
@@ -163,12 +229,52 @@ def stepDurEnc (enc : Int → Option Bytes) (ins impl : List String) : Option St
     let model := tabs ["enc", hexEncode b]
     pure (verdict (model == tabs impl) none model)
 
+/-- `JSONDuration.UnmarshalJSON` on a raw token: `some (some ns)`, `some none` = error, `none` = not modelled.
+A token that is no JSON number is an error when it is another JSON value; anything else
+(`+5`, `0x10`, `Inf`, … — never produced by the JSON scanner) is left alone. -/
 def jsonDurDec' (t : Bytes) : Option (Option Int) :=
-  match jsonDurDecode t with | some ns => some (some ns) | none => none
+  match jsonDurDecodeF t with
+  | .ok ns => some (some ns)
+  | .err => some none
+  | .unmodelled => none
+  | .notNumber =>
+    match t with
+    | 34 :: _ => some none | 123 :: _ => some none | 91 :: _ => some none
+    | _ => if t == Bytes.ofString "null" || t == Bytes.ofString "true" || t == Bytes.ofString "false" then some none
+           else none
 
 def yamlDurDec' (t : Bytes) : Option (Option Int) :=
-  match parseDur t with
-  | .ok ns => some (some ns) | .err => some none | .unmodelled => none | .fuel => none
+  match parseDurF t with
+  | .ok ns _ _ _ => some (some ns) | .err => some none | .unmodelled => none | .fuel => none
+
+/-- The integer-only models of `Model/Schedule.lean` (the ones the round-trip theorems are about)
+must agree with the float-exact ones wherever they answer. -/
+def oldNewAgree (yaml : Bool) (t : Bytes) : Bool :=
+  if yaml then
+    match parseDur t, parseDurF t with
+    | .ok a, .ok b _ _ _ => a == b
+    | .err, .err => true
+    | .unmodelled, _ => true
+    | _, _ => false
+  else
+    match jsonDurDecode t, jsonDurDecodeF t with
+    | some a, .ok b => a == b
+    | none, _ => true
+    | _, _ => false
+
+/-- Token-level monitor: a token that denotes a whole number of minutes decodes to exactly that. -/
+def stepDurF (yaml : Bool) (ins impl : List String) : Option String := do
+  let t ← runP pHex ins
+  if !oldNewAgree yaml t then none else
+  match (if yaml then yamlDurDec' t else jsonDurDec' t) with
+  | none => pure (verdict true none "unmodelled")
+  | some r =>
+    let model := match r with | some ns => tabs ["ok", toString ns] | none => "err"
+    let spec := match (if yaml then yamlTokVal t else jsonTokVal t), impl with
+      | .whole w, ["ok", x] => if x.toInt? == some w then none else some "C18.token-decode-inexact"
+      | .whole _, _ => some "C18.token-rejects-whole-minutes"
+      | _, _ => none
+    pure (verdict (model == tabs impl) spec model)
 
 /-! sequences on one long-lived filter (blocks starting with C18.sreset) -/
 
@@ -244,8 +350,8 @@ def step (st : St) (line : String) : St × String :=
         | "C18.validate" => stepValidate ins impl
         | "C18.json" => stepDecode false ins impl
         | "C18.yaml" => stepDecode true ins impl
-        | "C18.jsondur" => stepDur jsonDurDec' ins impl
-        | "C18.yamldur" => stepDur yamlDurDec' ins impl
+        | "C18.jsondur" => stepDurF false ins impl
+        | "C18.yamldur" => stepDurF true ins impl
         | "C18.jsondurenc" => stepDurEnc jsonDurEncode ins impl
         | "C18.yamldurenc" => stepDurEnc yamlDurEncode ins impl
         | _ => none
